@@ -177,6 +177,11 @@ theorem sortStr_perm (l : List String) : (sortStr l).Perm l := by
     show (insertStr x (sortStr l)).Perm (x :: l)
     exact (insertStr_perm x _).trans (List.Perm.cons x ih)
 
+theorem sortStr_nil_iff (l : List String) : sortStr l = [] ↔ l = [] := by
+  constructor
+  · intro h; have := (sortStr_perm l).length_eq; rw [h] at this; exact List.length_eq_zero_iff.mp this.symm
+  · intro h; rw [h]; rfl
+
 theorem find_self {l : List TermEntry} (h : (l.map (·.name)).Nodup) {e : TermEntry} (he : e ∈ l) :
     l.find? (·.name == e.name) = some e := by
   induction l with
